@@ -89,7 +89,12 @@ def initial_contents(spec, by="origin"):
     return out
 
 
-def build_labware(spec):
+def build_labware(spec, shared=None):
+    if spec.get("share") is not None and shared is not None:
+        # several labware constructed from one and the same float64 array object (a user's template)
+        arr = shared.setdefault(spec["share"], np.array(spec["init"], dtype=float))
+        cls, extra = (rt.Trough, {"column_names": spec.get("names")}) if spec["kind"] == "trough" else (rt.Labware, {"component_names": spec.get("names")})
+        return cls(spec["name"], spec["rows"], spec["cols"], min_volume=spec["min"], max_volume=spec["max"], initial_volumes=arr, **extra)
     if spec["kind"] == "trough":
         return rt.Trough(
             spec["name"],
@@ -118,9 +123,11 @@ def build_worklist(ws):
 
 
 def make_world(config):
+    shared = {}
     return {
-        "lw": {s["name"]: build_labware(s) for s in config["labware"]},
+        "lw": {s["name"]: build_labware(s, shared) for s in config["labware"]},
         "wl": {k: build_worklist(ws) for k, ws in config.get("worklists", {}).items()},
+        "shared": shared,
     }
 
 
